@@ -102,6 +102,18 @@ Theorem rect_polygon_agree_axis : forall x0 x1 y0 y1 c s p, x0 < x1 -> y0 < y1 -
 Proof. exact Lemmas.rect_polygon_agree_axis. Qed.
 Print Assumptions rect_polygon_agree_axis.
 
+(* copy_then_ops: in the model's operation semantics (state = region + position angle) a copy carries the whole state, so any
+   operation sequence applied to the copy gives what it gives on the original; a save / restore keeps the region, and the angle too
+   except for polygons, which restart at theta = 0 (VertexROIBase saves the vertices only; glue's test-suite pins that) *)
+Theorem copy_then_ops : forall st ops, t_apply st TCopy = st /\ t_apply_ops (t_apply st TCopy) ops = t_apply_ops st ops.
+Proof. intros st ops. split; [exact (Lemmas.copy_identity st)|exact (Lemmas.copy_then_ops st ops)]. Qed.
+Print Assumptions copy_then_ops.
+
+Theorem restore_then_ops : forall st ops, fst (t_apply st TRestore) = fst st /\
+  ((forall vs, fst st <> Poly vs) -> t_apply_ops (t_apply st TRestore) ops = t_apply_ops st ops).
+Proof. intros st ops. split; [exact (Lemmas.restore_region st)|exact (Lemmas.restore_then_ops st ops)]. Qed.
+Print Assumptions restore_then_ops.
+
 (* the model's In / Out verdicts (the only ones compared with the implementation) are sound for the geometric definitions *)
 Theorem rect_verdict_sound : forall x0 x1 y0 y1 eps b c s p, 0 <= eps -> c * c + s * s == 1 -> branch_ok b c s ->
   (classify eps (Rect x0 x1 y0 y1 b c s) p = VIn -> rect_geom x0 x1 y0 y1 c s p) /\
